@@ -158,6 +158,7 @@ def history(c2: int, c3: int, rs: int) -> bool:
     pre: 0 <= c2 < 20 and 0 <= c3 < 20 and 0 <= rs <= 3
     pre: core.PARAMS["k"] >= 3 or (c3 == 0 and rs <= 2)
     pre: core.PARAMS["restart"] or rs == 0
+    pre: core.PARAMS.get("rsv") is None or rs == core.PARAMS["rsv"]
     post: _
     """
     return held(_history, {"c1": core.PARAMS["c1"], "c2": core.pick(c2, 0, 20), "c3": core.pick(c3, 0, 20) if core.PARAMS["k"] >= 3 else 0, "rs": core.pick(rs, 0, 4) if core.PARAMS["restart"] else 0})
@@ -282,7 +283,8 @@ def jobs(tier):
     if q:
         for c1 in range(20):
             js.append({"name": f"history[k=2,c1={c1}]", "fn": "history", "params": {"k": 2, "c1": c1, "restart": False}, "timeout": T, "per_path": 120, "unblock": UNBLOCK})
-        js.append({"name": "history[k=2,restart,c1=1]", "fn": "history", "params": {"k": 2, "c1": 1, "restart": True}, "timeout": T, "per_path": 120, "unblock": UNBLOCK})
+        for rsv in (1, 2):
+            js.append({"name": f"history[k=2,restart,rs={rsv},c1=1]", "fn": "history", "params": {"k": 2, "c1": 1, "restart": True, "rsv": rsv}, "timeout": T, "per_path": 120, "unblock": UNBLOCK})
     else:
         for c1 in range(20):
             js.append({"name": f"history[k=3,c1={c1}]", "fn": "history", "params": {"k": 3, "c1": c1, "restart": False}, "timeout": 3000, "per_path": 120, "unblock": UNBLOCK})
